@@ -67,27 +67,32 @@ static long wb_walk(struct Tree* m, var node, var parent, int depth) {
 static void project(struct Slot* so, int o) {
   var c = so->obj;
   static long long buf[1 << 16], ks[1 << 16], vs[1 << 16];
-  size_t n;
+  volatile size_t n;
   int full = (light == 0) || force_full;
   ev_obj_begin();
   ev_int("o", o); ev_str("kind", kind_name(so->kind));
   ev_int("len", (long long)len(c));
   ev_int("full", full);
-  size_t nks = 0, nvs = 0;
+  volatile size_t nks = 0, nvs = 0;
   n = 0;
   if (full) {
     size_t lim = len(c) + 4; if (lim > (1 << 16)) lim = 1 << 16;
-    var it = iter_init(c);
-    while (it != Terminal && n < lim) {
-      buf[n++] = vt_token(vt_k, vt_nk, it);
-      if (ktk == VT_PROBE) ks[nks++] = ((struct Probe*)it)->serial;
-      if (vtk == VT_PROBE) { var v = get(c, it); vs[nvs++] = ((struct Probe*)v)->serial; }
-      it = iter_next(c, it);
-    }
+    try {
+      var it = iter_init(c);
+      while (it != Terminal && n < lim) {
+        long long tk = vt_token(vt_k, vt_nk, it);
+        if (ktk == VT_PROBE) { ks[nks] = ((struct Probe*)it)->serial; nks++; }
+        if (vtk == VT_PROBE) { var v = get(c, it); vs[nvs] = ((struct Probe*)v)->serial; nvs++; }
+        buf[n] = tk; n++;
+        it = iter_next(c, it);
+      }
+    } catch (e) { buf[n] = -9; n++; }
     ev_ints("it", buf, n);
     n = 0;
-    it = iter_last(c);
-    while (it != Terminal && n < lim) { buf[n++] = vt_token(vt_k, vt_nk, it); it = iter_prev(c, it); }
+    try {
+      var it = iter_last(c);
+      while (it != Terminal && n < lim) { long long tk = vt_token(vt_k, vt_nk, it); buf[n] = tk; n++; it = iter_prev(c, it); }
+    } catch (e) { buf[n] = -9; n++; }
     ev_ints("bw", buf, n);
   } else { ev_ints("it", buf, 0); ev_ints("bw", buf, 0); }
   /* get / mem probes: every key of the universe (full) or the touched key plus a few others (light) */
@@ -210,7 +215,7 @@ int main(int argc, char** argv) {
       emit(objs, "new", o, 0, 0, np, 0, kind_name(kind), hc_exc, 0);
       continue;
     }
-    if (!so->obj && !hc_is(0, "copy")) { fprintf(stderr, "no object %d at line %ld\n", o, (long)cur_line); return 9; }
+    if (!so->obj && !hc_is(0, "copy")) { ev_begin("missing"); ev_int("o", o); ev_int("line", cur_line); ev_end(); continue; }   /* an earlier call failed to produce it */
     if (hc_is(0, "set")) {
       int k = (int)hc_int(2), v = (int)hc_int(3);
       var key = vt_make(vt_k, k), val = vt_make(vt_v, v);
